@@ -18,7 +18,8 @@
                            as above (same section) ; false -> sleep again
               Taking:      own += debits, postpone                            -> Filling
               Filling:     __aenter__ returns                                 -> Holding
-              Holding:     __aexit__ (normal or with a non-GeneratorExit exception):
+              Holding:     __aexit__ on the awaited path (normal exit, or an ordinary exception
+                           of the body, i.e. neither GeneratorExit nor an Interrupt):
                            own -= debits, postpone                            -> Emptying
               Emptying:    parent += debits, postpone                         -> Returning
               Returning:   __aexit__ returns                                  -> Gone
@@ -26,7 +27,8 @@
               WaitAvail:   unsubscribe, propagate                             -> Gone
               Taking, Filling: `except BaseException: __release_nowait__(own.value)`:
                            schedule [own -= held; parent += debits]           -> Gone
-              Holding:     Signal = the body raised: as Step; Close (GeneratorExit):
+              Holding:     the block is left by an Interrupt (cancel, until-interrupt, scope
+                           cancel: Signal) or by GeneratorExit (Close): fix D20, no suspension:
                            `__release_nowait__(debits)`                       -> Gone
               Emptying:    `__release_nowait__(zero)`                         -> Gone
               Returning:   propagate (everything is back already)             -> Gone
@@ -166,7 +168,7 @@ Definition step (s : state) (o : op) : state * out :=
           match bph b with
           | WaitAvail | Returning => (setph i Gone s, OOk)
           | Taking | Filling => giveback s i b (pool (S i) s)
-          | Holding => exit_normal s i b
+          | Holding => giveback s i b (bdeb b)
           | Emptying => giveback s i b []
           | Idle | Gone => (s, ODisabled)
           end
